@@ -138,7 +138,7 @@ Proof. unfold teqb. split; [intros H; apply Fp_eq; apply Z.eqb_eq; exact H|intro
 
 Definition toy_laws : Laws toyE.
 Proof.
-  refine {| dl1 := fun (a : @G1 _ (PR toyE)) => (a : F (SO toyE)); dl2 := fun (a : @G2 _ (PR toyE)) => (a : F (SO toyE)) |}; cbn.
+  refine {| dl1 := fun (a : @G1 _ (PR toyE)) => (a : F (SO toyE)); dl2 := fun (a : @G2 _ (PR toyE)) => (a : F (SO toyE)) |}.
   - exact toy_field.
   - exact teqb_iff.
   - intros x. apply dec_enc_w. lia.
@@ -171,8 +171,9 @@ Defined.
 Theorem toy_suite_ok : suite_ok toyE.
 Proof.
   split.
-  - unfold suite_dsts_ok. cbn. repeat split; lia.
-  - exists (mk 17). cbn. apply dec_enc_w. lia.
+  - unfold suite_dsts_ok, toyE, toy_suite_c, cs, c_api_id, c_api_id_blind, c_map_msg_scalar, c_h2s, c_keygen_dst, c_ikm_len, c_expand_len.
+    cbn [app length]. repeat split; lia.
+  - exists (mk 17). unfold toyE, PR, cs, toy_suite_c, c_p1, toy_prims, g1_dec. apply dec_enc_w. lia.
 Qed.
 
 (* ---------------------------------------------------------------- concrete runs (hypotheses of the theorems are met) *)
@@ -181,13 +182,56 @@ Definition t_msgs : list bytes := [[1%N; 2%N]; []; [200%N]].
 Definition t_hdr : option bytes := Some [9%N; 9%N].
 
 (* C01: signing succeeds and verifies; the hypotheses of sign_verify_complete are inhabited *)
+Definition t_sign := sign toyE (Some t_msgs) t_sk (sk_to_pk toyE t_sk) t_hdr.
+Lemma t_sign_is_ok : is_ok t_sign = true.
+Proof. vm_compute. reflexivity. Qed.
+
 Example toy_sign_verifies :
   exists sg, sign toyE (Some t_msgs) t_sk (sk_to_pk toyE t_sk) t_hdr = Ok sg /\
              verify toyE sg (sk_to_pk toyE t_sk) (Some t_msgs) t_hdr = Ok tt.
 Proof.
-  destruct (sign toyE (Some t_msgs) t_sk (sk_to_pk toyE t_sk) t_hdr) as [sg| | |] eqn:Es.
-  - exists sg. split; [reflexivity|]. apply (sign_verify_complete toyE toy_laws). exact Es.
-  - exfalso. vm_compute in Es. discriminate.
-  - exfalso. vm_compute in Es. discriminate.
-  - exfalso. vm_compute in Es. discriminate.
+  pose proof t_sign_is_ok as H. fold t_sign.
+  destruct t_sign as [sg| | |] eqn:Es; try discriminate H.
+  exists sg. split; [reflexivity|]. apply (sign_verify_complete toyE toy_laws). exact Es.
+Qed.
+
+(* the value computed in the toy environment: A has discrete log 122, e = 227 *)
+Example toy_sign_value :
+  match t_sign with Ok sg => (val (sig_A toyE sg), val (sig_e toyE sg)) = (122, 227) | _ => False end.
+Proof. vm_compute. reflexivity. Qed.
+
+(* C03: the hypotheses of proof_complete are met by a concrete instance (3 messages, disclose {0, 2} given unsorted with a
+   duplicate, 6 draws), so the theorem applies to it; and the run itself *)
+From ZK Require Import ProofComplete Codec ModelLemmas.
+Definition t_pk := sk_to_pk toyE t_sk.
+Definition t_sigb : bytes := match t_sign with Ok sg => sig_to_bytes toyE sg | _ => [] end.
+Definition t_idx : option (list N) := Some [2%N; 0%N; 2%N].
+Definition t_rho : list Fp := [mk 3; mk 5; mk 7; mk 11; mk 13; mk 17].
+Definition t_ph : option bytes := Some [4%N].
+
+Example toy_proof_complete_applies :
+  exists p, proof_gen toyE t_pk t_sigb t_hdr t_ph (Some t_msgs) t_idx t_rho = Ok p /\
+    proof_verify toyE p t_pk (Some (pick t_msgs [0%N; 2%N])) (Some [0%N; 2%N]) t_hdr t_ph = Ok tt /\
+    length (pok_to_bytes toyE p) = (272 + 32 * 1)%nat.
+Proof.
+  destruct toy_sign_verifies as [sg [Hs Hv]].
+  assert (Hsb : sig_from_bytes toyE t_sigb = Ok sg).
+  { unfold t_sigb. fold t_sign in Hs. rewrite Hs.
+    apply (sig_codec_roundtrip toyE toy_laws).
+    - intros C. apply (f_equal val) in C. revert C. fold t_sign in Hs. generalize Hs. clear.
+      pose proof toy_sign_value as Hval. intros Hs. rewrite Hs in Hval. inversion Hval as [[HA He]]. rewrite HA. vm_compute. discriminate.
+    - intros C. apply (f_equal val) in C. revert C. fold t_sign in Hs. generalize Hs. clear.
+      pose proof toy_sign_value as Hval. intros Hs. rewrite Hs in Hval. inversion Hval as [[HA He]]. rewrite He. vm_compute. discriminate. }
+  assert (He : val (sig_e toyE sg) = 227%Z).
+  { pose proof toy_sign_value as Hval. fold t_sign in Hs. rewrite Hs in Hval. inversion Hval. reflexivity. }
+  destruct (proof_complete toyE toy_laws t_pk t_sigb sg t_hdr t_ph (Some t_msgs) t_idx t_rho toy_suite_ok Hsb Hv)
+    as [p [Hg [Hpv [Hlen _]]]].
+  - intros i Hi. cbn in Hi. cbn. destruct Hi as [<-|[<-|[<-|[]]]]; lia.
+  - reflexivity.
+  - intros C. apply (f_equal val) in C. vm_compute in C. discriminate.
+  - intros C. apply (f_equal val) in C. vm_compute in C. discriminate.
+  - intros C. apply (f_equal val) in C. vm_compute in C. discriminate.
+  - intros C. apply (f_equal val) in C. cbn [dl2 toy_laws] in C. unfold t_pk, sk_to_pk in C. cbn [g2_mul_gen PR toyE toy_prims] in C.
+    cbn [fadd SO toyE toy_scalars] in C. unfold tadd in C. rewrite val_mk, He in C. vm_compute in C. discriminate.
+  - exists p. split; [exact Hg|]. split; [exact Hpv|exact Hlen].
 Qed.
